@@ -23,6 +23,7 @@ import (
 	"strconv"
 
 	pg_query "github.com/cossacklabs/pg_query_go/v5"
+	"github.com/jackc/pgx/v5/pgtype"
 
 	"github.com/cossacklabs/acra/decryptor/base"
 	"github.com/cossacklabs/acra/encryptor/base/config"
@@ -284,11 +285,13 @@ func (p *pgBoundValue) setTokenizedData(newData []byte, setting config.ColumnEnc
 	switch p.format {
 	case base.TextFormat:
 		// here we take encrypted data and encode it to SQL String value that contains binary data in hex format
-		// or pass it as is if it is already valid string (all other SQL literals)
-		if utils.IsPrintablePostgresqlString(newData) {
-			p.data = newData
-		} else {
+		// or pass it as is if it is already valid string (all other SQL literals).
+		// A bytea value must always be hex encoded, as PgQueryDBDataCoder.Encode does for literals: a token
+		// that happens to be valid UTF-8 may hold backslashes, which the bytea text input would unescape or reject
+		if isByteaSetting(setting) || !utils.IsPrintablePostgresqlString(newData) {
 			p.data = postgresql.PgEncodeToHexString(newData)
+		} else {
+			p.data = newData
 		}
 		return nil
 	case base.BinaryFormat:
@@ -312,6 +315,12 @@ func (p *pgBoundValue) setTokenizedData(newData []byte, setting config.ColumnEnc
 		}
 	}
 	return nil
+}
+
+// isByteaSetting reports whether the column is a binary (bytea) column from the application's point of view
+func isByteaSetting(setting config.ColumnEncryptionSetting) bool {
+	typeID := setting.GetDBDataTypeID()
+	return typeID == 0 || typeID == pgtype.ByteaOID
 }
 
 func (p *pgBoundValue) setEncryptedData(newData []byte, setting config.ColumnEncryptionSetting) error {
